@@ -227,7 +227,9 @@ func headerVariant(name string) []byte {
 // scripted receiver vs real sender
 func receiverResponses() ([]string, []string) {
 	return []string{"RIok", "RIwrongtotal", "RIshort", "RIlong", "RIidmismatch", "RIverifiedbeyond", "RIallset", "none", "garbage"},
-		[]string{"FDok", "FDfail", "FDunknown", "none", "UNKNOWN", "FILEBEGIN", "ENDREC"}
+		[]string{"FDok", "FDfail", "FDunknown", "none", "UNKNOWN", "FILEBEGIN", "ENDREC",
+			// repeated and contradictory confirmations, at once and a little later
+			"FDok-twice", "FDok-then-fail", "FDfail-then-ok", "FDok-late-twice", "FDok-thrice"}
 }
 
 func runScriptedReceiver(sc Script) {
@@ -323,6 +325,17 @@ func runScriptedReceiver(sc Script) {
 				switch sc.Syms[1] {
 				case "FDok":
 					ctrl.Write(encFileDone(key, true, ""))
+				case "FDok-twice":
+					ctrl.Write(cat(encFileDone(key, true, ""), encFileDone(key, true, "")))
+				case "FDok-thrice":
+					ctrl.Write(cat(encFileDone(key, true, ""), encFileDone(key, true, ""), encFileDone(key, true, "")))
+				case "FDok-then-fail":
+					ctrl.Write(cat(encFileDone(key, true, ""), encFileDone(key, false, "changed my mind")))
+				case "FDfail-then-ok":
+					ctrl.Write(cat(encFileDone(key, false, "disk full"), encFileDone(key, true, "")))
+				case "FDok-late-twice":
+					vrt.Sleep(150 * time.Millisecond)
+					ctrl.Write(cat(encFileDone(key, true, ""), encFileDone(key, true, "")))
 				case "FDfail":
 					ctrl.Write(encFileDone(key, false, "disk full"))
 				case "FDunknown":
